@@ -33,9 +33,9 @@ RULE = ("one fixed list of cases (canonical programs, all corpus files, soups/ta
 ASSUMPTIONS = ["equality of blake2 digests of the JSON-serialised results is equality of results",
                "two scans of one tree may differ in uuid, timestamp and listing order only (as the property states)"]
 BOUNDS = {"quick": dict(seeds=["0", "1", "2", "3", "r"], orders=3, canon=8, hostile=40, trees=3, walk_perms=5),
-          "thorough": dict(seeds=[str(i) for i in range(63)] + ["r"], orders=4, canon=40, hostile=300, trees=20, walk_perms=40)}
+          "thorough": dict(seeds=[str(i) for i in range(31)] + ["r"], orders=4, canon=30, hostile=200, trees=12, walk_perms=30)}
 MINIMUM = {"quick": {"monitor.digests_compared": 5000, "monitor.tree_reports_compared": 80, "monitor.repeat_checks": 1000, "monitor.isolation_checks": 300},
-           "thorough": {"monitor.digests_compared": 500000, "monitor.tree_reports_compared": 5000, "monitor.repeat_checks": 50000}}
+           "thorough": {"monitor.digests_compared": 200000, "monitor.tree_reports_compared": 2000, "monitor.repeat_checks": 30000}}
 
 
 def shards(tier, seed):
